@@ -19,3 +19,5 @@ open RV.C16
 #print axioms interleaved_iterators_share_rows
 #print axioms json_text_roundtrip
 #print axioms json_py_text_roundtrip
+#print axioms csv_text_roundtrip
+#print axioms csv_text_preserves
